@@ -28,8 +28,9 @@ ObjV == {V("object", xp, "none", FALSE, keep, "") : xp \in {0, 1, 3}, keep \in B
 ArrV == {V("array", 0, "none", FALSE, keep, "") : keep \in BOOLEAN}
 CatV == {V("concat", xp, ty, FALSE, FALSE, "") : xp \in {0, 1}, ty \in {"none", "int"}}
         \cup {V("coalesce", 0, "none", FALSE, FALSE, ""), V("upper", 0, "none", FALSE, FALSE, "")}
-AllV == FieldV \cup ConstV \cup ObjV \cup ArrV \cup CatV
-LeafK == {"field", "const"}
+ExtV == {V("external", 0, "none", FALSE, FALSE, "p1"), V("external", 0, "int", FALSE, FALSE, "p2"), V("external", 0, "none", FALSE, TRUE, "p3")}
+AllV == FieldV \cup ConstV \cup ObjV \cup ArrV \cup CatV \cup ExtV
+LeafK == {"field", "const", "external"}
 
 RECURSIVE AncSelfQ(_, _)
 AncSelfQ(p, i) == IF i = 0 THEN {0} ELSE {i} \cup AncSelfQ(p, p[i])
@@ -44,7 +45,7 @@ TreeOK(m, p, v) ==
   /\ \A i \in 1..m : v[i].kind = "upper" => Cardinality({j \in 2..m : p[j] = i}) = 1          \* upper(s): exactly one argument
   /\ v[1] \in {V("object", 0, "none", FALSE, FALSE, ""), V("object", 0, "none", FALSE, TRUE, "")}   \* FINAL_OUTPUT
   /\ \A i \in 2..m : /\ v[p[i]].kind \notin LeafK                                   \* only composites have children
-                     /\ (v[p[i]].kind \in FuncKinds => v[i].kind \in {"field", "const"} \cup FuncKinds)   \* well-typed arguments
+                     /\ (v[p[i]].kind \in FuncKinds => v[i].kind \in {"field", "const", "external"} \cup FuncKinds)   \* well-typed arguments
                      /\ (v[p[i]].kind \in FuncKinds => v[i].ty = "none")      \* string-typed arguments (ill-typed calls belong to C03)
                      /\ ~(v[i].kind = "array" /\ v[p[i]].kind = "array")                      \* the schema grammar forbids it
 
